@@ -82,3 +82,10 @@ func (s *ShapeIndex) VerifCell(id CellID) []VerifClipped {
 
 func (s *ShapeIndex) VerifPendingAdditionsPos() int32 { return s.pendingAdditionsPos }
 func (s *ShapeIndex) VerifNumShapesMap() int          { return len(s.shapes) }
+
+func VerifUpdateEdgePairMinDistance(a0, a1, b0, b1 Point, d s1.ChordAngle) (s1.ChordAngle, bool) {
+	return updateEdgePairMinDistance(a0, a1, b0, b1, d)
+}
+func VerifUpdateEdgePairMaxDistance(a0, a1, b0, b1 Point, d s1.ChordAngle) (s1.ChordAngle, bool) {
+	return updateEdgePairMaxDistance(a0, a1, b0, b1, d)
+}
